@@ -9,6 +9,8 @@ import (
 	"strings"
 	"time"
 
+	"github.com/youchainhq/go-youchain/common"
+	"github.com/youchainhq/go-youchain/core/state"
 	"github.com/youchainhq/go-youchain/core/types"
 )
 
@@ -41,8 +43,12 @@ type op struct {
 	incl     []mtx
 	lo, ln   int
 	price    uint64
-	oob      bool
-	k        int
+	// mreset: head changes cur->A, A->B, B->C queued while the run for cur->A is held inside reset
+	shape         int // 0: C sibling of B (equal height) 1: C sibling of A (lower) 2: C child of B (higher)
+	gls           [3]uint64
+	chA, chB, chC [][3]uint64
+	oob           bool
+	k             int
 }
 
 // addMode: 0 remote (sync), 1 local, 2 remote asynchronous with racing reads (the model sees a remote add)
@@ -84,6 +90,16 @@ func (o op) text() string {
 			fmt.Fprintf(&sb, " %d %d %d", c[0], c[1], c[2])
 		}
 		sb.WriteString(" " + txsText(o.disc) + " " + txsText(o.incl))
+		return sb.String()
+	case "mreset":
+		var sb strings.Builder
+		fmt.Fprintf(&sb, "mreset %d %d %d %d", o.shape, o.gls[0], o.gls[1], o.gls[2])
+		for _, ch := range [][][3]uint64{o.chA, o.chB, o.chC} {
+			fmt.Fprintf(&sb, " %d", len(ch))
+			for _, c := range ch {
+				fmt.Fprintf(&sb, " %d %d %d", c[0], c[1], c[2])
+			}
+		}
 		return sb.String()
 	case "price":
 		return fmt.Sprintf("price %d", o.price)
@@ -135,6 +151,21 @@ func (o op) proto(ord []int) string {
 		return "promote " + ordText(ord)
 	}
 	return "?"
+}
+
+// mresetProtos: what the unchanged pool does with the three queued head changes = two resets, cur->A and then
+// (coalesced) A->C; both states are sent in full. Valid only right after exec of the op (uses w.mrA / w.mrC).
+func (w *world) mresetProtos(o op, ord1, ord2 []int) []string {
+	line := func(ord []int, gl uint64, st [][3]uint64) string {
+		var sb strings.Builder
+		fmt.Fprintf(&sb, "reset %s 0 %d %d", ordText(ord), gl, len(st))
+		for _, c := range st {
+			fmt.Fprintf(&sb, " %d %d %d", c[0], c[1], c[2])
+		}
+		sb.WriteString(" 0 0")
+		return sb.String()
+	}
+	return []string{line(ord1, o.gls[0], w.mrA), line(ord2, o.gls[2], w.mrC)}
 }
 
 type numReader struct {
@@ -203,6 +234,27 @@ func parseOp(line string) (op, error) {
 		o.incl = r.txs()
 		if o.scenario < 0 || o.scenario >= scCount || o.lo < 1 || o.ln < 1 || o.lo > 8 || o.ln > 8 {
 			return o, fmt.Errorf("bad reset scenario")
+		}
+	case "mreset":
+		o.shape = int(r.next())
+		o.gls = [3]uint64{r.next(), r.next(), r.next()}
+		for k := 0; k < 3 && r.err == nil; k++ {
+			nc := int(r.next())
+			var ch [][3]uint64
+			for i := 0; i < nc && r.err == nil; i++ {
+				ch = append(ch, [3]uint64{r.next(), r.next(), r.next()})
+			}
+			switch k {
+			case 0:
+				o.chA = ch
+			case 1:
+				o.chB = ch
+			case 2:
+				o.chC = ch
+			}
+		}
+		if o.shape < 0 || o.shape > 2 {
+			return o, fmt.Errorf("bad mreset shape")
 		}
 	case "price":
 		o.price = r.next()
@@ -367,6 +419,82 @@ func (w *world) exec(o op, pre *view) (res []string, err error) {
 			bc.statedb = prevState
 			delete(bc.blocks, newBlock.Hash())
 		}
+	case "mreset":
+		bc := w.chain
+		cur := bc.head
+		w.salt++
+		mk := func(base *state.StateDB, ch [][3]uint64) (*state.StateDB, error) {
+			st := base.Copy()
+			for _, c := range ch {
+				if int(c[0]) >= len(w.addrs) {
+					return nil, fmt.Errorf("account %d out of range", c[0])
+				}
+				st.SetNonce(w.addrs[c[0]], c[1])
+				st.SetBalance(w.addrs[c[0]], new(big.Int).SetUint64(c[2]))
+			}
+			return st, nil
+		}
+		stA, e := mk(bc.statedb, o.chA)
+		if e != nil {
+			return nil, e
+		}
+		stB, e := mk(stA, o.chB)
+		if e != nil {
+			return nil, e
+		}
+		root := func(k byte) common.Hash {
+			var h common.Hash
+			h[0] = 0xa0 + k
+			new(big.Int).SetUint64(w.salt).FillBytes(h[24:])
+			return h
+		}
+		blkA := bc.mkBlockRoot(cur.NumberU64()+1, cur.Hash(), o.gls[0], w.salt, root(0), nil)
+		blkB := bc.mkBlockRoot(blkA.NumberU64()+1, blkA.Hash(), o.gls[1], w.salt, root(1), nil)
+		baseC, parentC := stA, blkA
+		switch o.shape {
+		case 1:
+			baseC, parentC = bc.statedb, cur
+		case 2:
+			baseC, parentC = stB, blkB
+		}
+		stC, e := mk(baseC, o.chC)
+		if e != nil {
+			return nil, e
+		}
+		blkC := bc.mkBlockRoot(parentC.NumberU64()+1, parentC.Hash(), o.gls[2], w.salt+1<<40, root(2), nil)
+		bc.states[root(0)], bc.states[root(1)], bc.states[root(2)] = stA, stB, stC
+		full := func(st *state.StateDB) [][3]uint64 {
+			var out [][3]uint64
+			for i, a := range w.addrs {
+				out = append(out, [3]uint64{uint64(i), st.GetNonce(a), st.GetBalance(a).Uint64()})
+			}
+			return out
+		}
+		w.mrA, w.mrC = full(stA), full(stC)
+		// hold the run for cur->A inside reset (it owns the pool lock and waits in StateAt), queue the two later head
+		// changes behind it, release: scheduleReorgLoop has to coalesce them into ONE run to the LAST head
+		gate := make(chan struct{})
+		bc.entered = make(chan struct{}, 1)
+		bc.gate = gate
+		d1 := w.pool.VerifC20RequestReset(cur.Header(), blkA.Header())
+		select {
+		case <-bc.entered:
+		case <-time.After(20 * time.Second):
+			close(gate)
+			return nil, fmt.Errorf("mreset: the first reorg run never reached StateAt")
+		}
+		d2 := w.pool.VerifC20RequestReset(blkA.Header(), blkB.Header())
+		d3 := w.pool.VerifC20RequestReset(blkB.Header(), blkC.Header())
+		close(gate)
+		for _, d := range []chan struct{}{d1, d2, d3} {
+			select {
+			case <-d:
+			case <-time.After(20 * time.Second):
+				return nil, fmt.Errorf("mreset: a queued reset never completed")
+			}
+		}
+		bc.head = blkC
+		bc.statedb = stC
 	case "price":
 		w.pool.SetGasPrice(new(big.Int).SetUint64(o.price))
 	case "remove":
